@@ -18,6 +18,7 @@ RULE = (
 def cases(tier, rng, run):
     import gen_ctx
     from checks import callcommon  # noqa: F401  (registers the CALL handler)
+    import impl_hist  # noqa: F401  (registers the HIST handler)
     from framework import Case
 
     out = ctxcommon.ctx_cases(run, tier, 25000, 400000)
@@ -33,6 +34,12 @@ def cases(tier, rng, run):
             continue
         kind, style = rng.choice([("nt", "pos"), ("nt", "kw"), ("nt", "kwrev"), ("dc", "pos"), ("dc", "kw"), ("dc", "kwrev"), ("dc", "inherit"), ("dc", "inherit"), ("dc", "inherit2"), ("dc", "inherit2"), ("pyd", "kw"), ("pyd", "kwrev")])
         out.append(Case(c.call_line(kind, style), "class-form", {"ctx": c}))
+    # provider histories (the C12 generator: providers that change between calls and DURING a call — a body that reconfigures its own
+    # instance): a call or a returned value that violates under the mapping the call started with is never accepted
+    from checks import c12
+
+    for _ in range(600 if tier == "quick" else 8000):
+        out.append(Case(c12.gen(rng, tier), "prov-history"))
     # a name bound in one way and met again in another, zero sizes included (exhaustive small family)
     for c in gen_ctx.rebinding_contexts() + gen_ctx.group_contexts():
         out.append(Case(c.ctx_line(), "rebind", {"ctx": c}))
@@ -41,6 +48,11 @@ def cases(tier, rng, run):
 
 
 def judge(case, impl_out, spec):
+    if case.line.startswith("HIST"):
+        from checks import c12
+
+        why = c12.judge(case, impl_out, spec)
+        return why if why and " violates " in why else None   # (false accepts only: the other demands of that oracle belong to C02 / C12)
     if case.line.startswith("CALL"):
         from checks import callcommon
 
